@@ -200,6 +200,14 @@ def run(ctx):
         rec = f.get("recipe") or {}
         if f.get("check") == "evolved" and (rec.get("gravity") == "tree" or rec.get("collision") in ("tree", "linetree")):
             f["key"] = "continue:tree-rebuilt"     # same root cause as C05's finding with this key
+    for f in fails:
+        # residual of the BS restart defect fixed in 78f405f: if N changed in the LAST step before the save point (merge,
+        # open boundary), the original recreates its ODE at the next step and resets first_or_last_step to 1, whereas the
+        # restored simulation allocates a fresh ODE and keeps the persisted 0
+        rec = f.get("recipe") or {}
+        if f.get("key") == "continue:bs:first_or_last_step" and (rec.get("collision_resolve") == "merge" or rec.get("boundary") == "open"
+                                                                 or any(op.get("op") in ("add", "remove") for op in rec.get("after", []))):
+            f["key"] = "continue:bs:N_changed_before_save"
     seen = set()
     for f in fails:
         key = norm_key(f.get("key") or "unkeyed:" + json.dumps(f, default=str)[:60],
